@@ -58,6 +58,22 @@ def plan(tier, seed):
 def run_group(kind, terms, cancel_at, sess, rseed):
     """returns dict(outcome, iterations, sims, ts, ...)"""
     random.seed(rseed)
+    # the slot a fast group draws in the program table: the boundary values
+    # now and then (derived from the seed so that both runs of a case agree)
+    import ebpfcat.ebpfcat as ecmod_
+    forced = {0: 0, 1: 0, 2: 63}.get(rseed % 7)
+    orig_rr = ecmod_.randrange
+    if forced is not None:
+        ecmod_.randrange = lambda a, b=None: forced \
+            if b is None and a == 64 else orig_rr(a, b) \
+            if b is not None else orig_rr(a)
+    try:
+        return _run_group(kind, terms, cancel_at, sess, rseed)
+    finally:
+        ecmod_.randrange = orig_rr
+
+
+def _run_group(kind, terms, cancel_at, sess, rseed):
     sims = simgroup.make_sims(terms)
     b = bus.Bus(sims)
     out = dict(iter_at_3cycles=None)
@@ -211,13 +227,20 @@ def process_leg(params, res):
         delays = [0.0, 0.02, 0.1, 0.3, 0.6, 1.0, 1.5, 0.05, 0.2, 0.45]
         delay = delays[(i * 2 + params["shard"]) % len(delays)]
         terms = simgroup.gen_terms(rng, nmax=2)
-        desc = dict(kind="process", cancel_after=delay, terms=terms)
+        # the cyclic frames stop coming back after so many cycles (cable
+        # pulled behind the master): cancelling must still end the group
+        silent = rng.choice([None, None, 2, 8, 40])
+        desc = dict(kind="process", cancel_after=delay, terms=terms,
+                    cyclic_frames_answered=silent)
+        if silent is not None:
+            res.count("process_points_on_a_bus_that_falls_silent")
         tmp = tempfile.mkdtemp(prefix="vf-c24p-")
         report = os.path.join(tmp, "report.json")
 
         async def main():
             ec = SimEC("vf")
             ec.sim_terms, ec.report = terms, report
+            ec.silent_after = silent
             ts, devs = simgroup.make_rig(terms, ec)
             sg = ProcessSyncGroup(ec, devs)
             ec.ops = sg.ctx.Value("I")
